@@ -96,31 +96,26 @@ def constraint_edit(spec: Any, pos: Dict[str, Any], doc: Any, a: int) -> Optiona
     if r.len and kind == "bytearray":
         return [("excluded:bytes-length", None)]
     if r.patterns and kind == "str":
-        # violate ONE chosen pattern, keeping the other constraints satisfied where the pool allows it
-        i = a % len(r.patterns)
-        target = r.patterns[i]
-        others = [p for j, p in enumerate(r.patterns) if j != i]
+        # per pattern (at most 3): violate THAT pattern, keeping the other constraints satisfied where the pool allows it
         pool = list(schemakit.GENERIC) + [cur + "!", "!" + cur, cur.upper(), cur + cur, "\u0001"]
         for f in spec.fns:
             pool += list(f.examples)
-        exact = [c for c in pool if re.match(target, c) is None and all(re.match(p, c) for p in others)
-                 and (not r.len or lo <= len(c) <= (hi if hi is not None else 10 ** 9))]
-        loose = [c for c in pool if re.match(target, c) is None]
-        if exact:
-            options.append((f"string-outside-pattern-{min(i, 2)}-of-{min(len(r.patterns), 3)}", exact[a % len(exact)]))
-        elif loose:
-            options.append(("string-outside-pattern", loose[a % len(loose)]))
+        for k in range(min(3, len(r.patterns))):
+            i = (a + k) % len(r.patterns)
+            target = r.patterns[i]
+            others = [p for j, p in enumerate(r.patterns) if j != i]
+            exact = [c for c in pool if re.match(target, c) is None and all(re.match(p, c) for p in others)
+                     and (not r.len or lo <= len(c) <= (hi if hi is not None else 10 ** 9))]
+            loose = [c for c in pool if re.match(target, c) is None]
+            if exact:
+                options.append((f"string-outside-pattern-{min(i, 2)}-of-{min(len(r.patterns), 3)}", exact[a % len(exact)]))
+            elif loose and k == 0:
+                options.append(("string-outside-pattern", loose[a % len(loose)]))
     if not options:
         return None
-    if several_bounds(r):
-        # the tightest of several declared bounds is the one that counts: every length edit of this position
-        return [(name + ":several-bounds" if "than-m" in name else name, _set(doc, pos["path"], val)) for name, val in options]
-    # pattern edits are the rarest: prefer them half of the time
-    pat = [o for o in options if o[0].startswith("string-outside-pattern")]
-    if pat and a % 2 == 0:
-        options = pat
-    name, val = options[a % len(options)]
-    return [(name, _set(doc, pos["path"], val))]
+    # every edit of the position is applied (each to its own copy of the document): validation is cheap
+    sb = several_bounds(r)
+    return [(name + ":several-bounds" if (sb and "than-m" in name) else name, _set(doc, pos["path"], val)) for name, val in options]
 
 
 def several_bounds(r: Any) -> bool:
